@@ -3,7 +3,8 @@
 What is regenerated from the current source on every run:
   * THRESHOLD_SMALL, THRESHOLD_MEDIUM (module constants, int literals)
   * the regime dispatch  (two `if` tests over size / is_floating_dtype / _blas_is_applicable)
-  * the element-wise right-hand side of the direct regime
+  * the body of the direct regime (one assignment out.data[:] = E, or an if/elif/else over the scalars
+    with one such assignment per branch)
   * the bodies of the nested fallback_axpy / fallback_scal / fallback_copy
   * the rule choosing the ravel order of the BLAS regime
   * the alias-and-scalar decision tree (the last statement of the function)
@@ -160,6 +161,15 @@ def vexpr(node):
     if isinstance(node, (ast.Name, ast.Constant)):
         return '(VS %s)' % sc(node)
     fail(node, 'direct expression outside grammar')
+
+
+def dstmt(node):
+    """out.data[:] = VEXPR   |   if COND: dstmt elif ... else: dstmt   (one statement per branch)"""
+    if isinstance(node, ast.Assign) and len(node.targets) == 1 and ast.unparse(node.targets[0]) == 'out.data[:]':
+        return '(DAssign %s)' % vexpr(node.value)
+    if isinstance(node, ast.If) and len(node.body) == 1 and len(node.orelse) == 1:
+        return '(DIf %s %s %s)' % (cond(node.test), dstmt(node.body[0]), dstmt(node.orelse[0]))
+    fail(node, 'direct-regime statement outside grammar')
 
 
 # ------------------------------------------------------------------ regime tests
@@ -328,12 +338,10 @@ def translate(repo=None):
     # ---- regime dispatch
     r = body[2]
     if not (isinstance(r, ast.If) and len(r.body) == 2 and isinstance(r.body[1], ast.Return)
-            and r.body[1].value is None and isinstance(r.body[0], ast.Assign)
-            and ast.unparse(r.body[0].targets[0]) == 'out.data[:]' and len(r.orelse) == 1
-            and isinstance(r.orelse[0], ast.If)):
+            and r.body[1].value is None and len(r.orelse) == 1 and isinstance(r.orelse[0], ast.If)):
         fail(r, 'regime dispatch shape changed')
     test_direct = rtest(r.test)
-    direct = vexpr(r.body[0].value)
+    direct = dstmt(r.body[0])
     r2 = r.orelse[0]
     test_fallback = rtest(r2.test)
     fb = [s for s in r2.body]
@@ -381,8 +389,8 @@ def translate(repo=None):
          '  if %s then Direct' % test_direct,
          '  else if %s then Fallback' % test_fallback,
          '  else Blas.', '',
-         '(* out.data[:] = <this> *)',
-         'Definition direct_expr : vexpr := %s.' % direct, '',
+         '(* body of the direct regime *)',
+         'Definition direct_body : dstmt := %s.' % direct, '',
          'Definition fallback_axpy : list pstmt := %s.' % f_axpy,
          'Definition fallback_scal : list pstmt := %s.' % f_scal,
          'Definition fallback_copy : list pstmt := %s.' % f_copy, '',
